@@ -217,6 +217,15 @@ def cases(tier):
                         yield {'fam': 'flat', 'handlers': names, 'br': br,
                                'hr': hr, 'else': els,
                                'syntax': SYNTAXES[idx % 3]}
+    # handler tags naming several classes, separated by any white space
+    for names in ([['HC', 'HX']], [['HX', 'HB']], [['HA', 'HX'], []],
+                  [['HX', 'HC', 'HB']], [['HX'], ['HB', 'HC']]):
+        for ws in (1, 2, 4, 5, 6, 7, 8, 9):
+            for br in CLS:
+                idx += 1
+                yield {'fam': 'flat', 'handlers': names, 'br': br,
+                       'hr': None, 'else': None, 'ws': ws,
+                       'syntax': SYNTAXES[idx % 3]}
     # exceptions with two bases, and two different classes of one name
     # raised in successive renders of the same compiled template
     mi_h = [['HA'], ['HB'], ['HX'], ['HC'], ['HM'], ['HA', 'HC'], []]
@@ -478,6 +487,15 @@ def build(case):
 
 
 def run(case):
+    from .. import ast as _ast
+    _ast.DEFAULT_STYLE['ws'] = case.get('ws', 0)
+    try:
+        return run_(case)
+    finally:
+        _ast.DEFAULT_STYLE['ws'] = 0
+
+
+def run_(case):
     res = Res()
     if case['fam'] == 'samename':
         run_samename(res, case)
